@@ -429,6 +429,13 @@ func (n *not) Execute(searcher index.GetSearcher, seriesID common.SeriesID, tr *
 	return all, allTS, err
 }
 
+// ShouldSkip never skips a block. The block filters (bloom filter, dictionary) can only tell that a value
+// might occur in the block; a negated condition can drop a block only if every row satisfies the inner
+// condition, which these summaries cannot prove. The row-level tag filter evaluates the negation.
+func (n *not) ShouldSkip(_ index.FilterOp) (bool, error) {
+	return false, nil
+}
+
 func (n *not) MarshalJSON() ([]byte, error) {
 	data := make(map[string]interface{}, 1)
 	data["not"] = n.Inner
